@@ -34,6 +34,16 @@ def flagset(st):
     return tuple(f for f in _FL if st.get(f))
 
 
+def _pyint_values(c):
+    if isinstance(c, bool):
+        return False
+    if isinstance(c, int):
+        return True
+    if isinstance(c, (list, tuple)):
+        return len(c) > 0 and all(_pyint_values(x) for x in c)
+    return False
+
+
 def make_judges(ctx):
     mon = ctx.mon
     Fxp = mon.Fxp
@@ -102,6 +112,9 @@ def make_judges(ctx):
             return
         post = si.post
         why = in_core_domain(si, post, allow_big_float_saturate=False)
+        if why == 'input magnitude outside the core domain' and _pyint_values(si.carrier):
+            why = None          # python integers of any size are exact inputs: what the write reports about them is decided like for any other value
+            ctx.floor_hit(('huge-integer-write',))
         if why:
             ctx.skip('write:' + why)
             return
@@ -204,6 +217,13 @@ def make_judges(ctx):
             route = 'binary:%s:%s' % (ai.op, ai.route)
             srcs = [s for s in (ai.x, ai.y) if s is not None]
             res = ai.res
+        elif ev.kind == 'method' and ev.op == '__array_ufunc__' and len(ev.args) >= 3 and ev.args[1] == '__call__' \
+                and ev.args[0] in (np.add, np.subtract, np.multiply) and not ev.kwargs:
+            # the arithmetic ufuncs with a configured output (config.array_op_out / array_op_out_like of the dispatching operand)
+            route = 'numpy:configured-output'
+            ins = [a for a in ev.args[2:] if isinstance(a, Fxp)]
+            srcs = [p for o, p in zip(ev.operands, ev.pre) if p is not None and any(o is a for a in ins)]
+            res = ev.result_snap
         elif ev.kind == 'function' and ev.op in ('sum', 'cumsum', 'prod', 'cumprod', 'fxp_max', 'fxp_min', 'trace', 'dot', 'clip', 'transpose', 'diagonal', 'sort'):
             route = 'function:%s' % ev.op
             srcs = [p for o, p in zip(ev.operands, ev.pre) if p is not None and o is not ev.kwargs.get('out') and o is not ev.kwargs.get('out_like')]
@@ -249,7 +269,7 @@ def floors(tier):
     cells = [('raised', k, f) for k in ('write', 'indexed', 'constructor', 'resize') for f in _FL] + [('raised', 'constructor_like', 'inaccuracy')]
     cells += [('callbacks', k) for k in ('write', 'indexed', 'resize')] + [('callbacks-changed',)]
     cells += [('reset', True), ('propagation', 'binary'), ('propagation', 'function'), ('propagation', 'numpy'), ('propagation', 'method'),
-              ('propagation', 'Fxp(x)'), ('propagation', 'Fxp(x, like=)')]
+              ('propagation', 'Fxp(x)'), ('propagation', 'Fxp(x, like=)'), ('huge-integer-write',), ('propagation-workload', 'configured-output')]
     return cells
 
 
@@ -409,6 +429,37 @@ def run_case(case, ctx):
                       lambda: fm.add(x, y), lambda: fm.mul(x, y), lambda: np.add(x, y), lambda: np.multiply(x, y),
                       lambda: fm.add(x, y, out=Fxp(None, True, 20, 8)), lambda: fm.add(x, y, out_like=Fxp(None, True, 20, 8))):
                 _try(f)
+        # writes of python integers whose scaled value sits around 2^62 .. 2^65 (beyond what 64-bit integers hold): flags and callbacks as for any value
+        fh = G.conventional_format(rng, 8, 52)
+        if fh[2] >= 1:
+            for ov in ('saturate', 'wrap'):
+                xh = Fxp(None, fh[0], fh[1], fh[2], overflow=ov, rounding=rng.choice(G.ROUNDINGS))
+                xh.callbacks.append(rec)
+                ah = Fxp(np.zeros(2), fh[0], fh[1], fh[2], overflow=ov)
+                ah.callbacks.append(rec)
+                for e_ in (62, 63, 64, 65):
+                    for sg_ in (1, -1):
+                        vh = sg_ * ((1 << max(0, e_ - fh[2])) + rng.choice([0, 1, -1, 5]))
+                        _try(lambda: xh.reset())
+                        _try(lambda: xh(vh))
+                        _try(lambda: xh.reset())
+                        _try(lambda: xh.set_val(vh))
+                        _try(lambda: ah.reset())
+                        _try(lambda: ah.__setitem__(1, vh))
+                        _try(lambda: Fxp(vh, fh[0], fh[1], fh[2], overflow=ov))
+        # the NumPy route with a configured output on the dispatching operand (config.array_op_out_like / array_op_out)
+        for inx in (True, False):
+            for opt in ('array_op_out_like', 'array_op_out'):
+                for meth in ('repr', 'raw'):
+                    xa = mk(fx, inx, arr=True)
+                    ya = mk(fx, False, arr=True)
+                    _try(lambda: setattr(xa.config, 'array_op_method', meth))
+                    _try(lambda: setattr(xa.config, opt, Fxp(np.zeros(2), True, 30, 14)))
+                    _try(lambda: np.add(xa, ya))
+                    _try(lambda: np.multiply(xa, ya))
+                    _try(lambda: np.sum(xa))
+                    _try(lambda: np.cumsum(xa))
+        ctx.floor_hit(('propagation-workload', 'configured-output'))
         for inx in (True, False):
             a = mk(fx, inx, arr=True)
             for f in (lambda: np.sum(a), lambda: np.cumsum(a), lambda: a.sum(), lambda: a.cumsum(), lambda: fm.sum(a), lambda: np.max(a), lambda: a.max(),
